@@ -8,7 +8,9 @@ HERE = os.path.dirname(os.path.dirname(os.path.abspath(__file__)))
 
 
 def esc(s):
-    return (s or "").replace("|", "\\|").replace("\n", " ")
+    s = (s or "").replace("|", "\\|").replace("\n", " ")
+    # messages quote document bytes: keep the report plain text
+    return "".join(ch if (ch >= " " and ch != "\x7f" and not ("\ud800" <= ch <= "\udfff") and ch != "\ufffd") else "?" for ch in s)
 
 
 def short(s, n):
@@ -36,6 +38,15 @@ for r in rows:
     out.append("| %s | %s | %s | %s | %s | %s |" % (r[0], r[2], r[3], r[4], r[5], r[6]))
 caught = sum(1 for r in rows if r[4] == "yes")
 out.append("\n%d of %d are caught by the quick check of the property they were written against.\n" % (caught, len(rows)))
+noted = []
+for d in sorted(glob.glob(os.path.join(HERE, "seeded", "C*"))):
+    m = json.load(open(os.path.join(d, "meta.json")))
+    if not m.get("caught_by_own_property"):
+        noted.append("* `%s` - reported by %s. %s" % (m["id"], ", ".join(m.get("caught_by", [])) or "NO CHECK", esc(m.get("note", "(no note)"))))
+if noted:
+    out.append("Kept although the check of their own property does not flag them (the reason is in `meta.json`):\n")
+    out.extend(noted)
+    out.append("")
 rej = sorted(glob.glob(os.path.join(HERE, "seeded", "rejected", "*")))
 if rej:
     out.append("Rejected (valid patch and demonstration, but not a violation of the property as stated):\n")
